@@ -87,6 +87,7 @@ fn item(ctx: &Ctx, i: usize, rep: &mut Report) {
     rep.config(format!("k={},w={},d={},{:?}", k, w, d, kind));
     let stream = gen_stream(kind, n, alphabet, &mut r);
     let snap0 = pdatastructs::verif::snapshot();
+    let via_extend = r.chance(0.3);
     let clone_at: Option<usize> = if r.chance(0.3) { Some(r.below(n as u64) as usize) } else { None };
     let mut checks = 0u64;
     let mut collision_free_checks = 0u64;
@@ -103,7 +104,11 @@ fn item(ctx: &Ctx, i: usize, rep: &mut Report) {
                 // continue on a clone: a copy must carry everything later answers depend on
                 heap = heap.clone();
             }
-            heap.add(*x);
+            if via_extend && idx % 7 == 3 {
+                heap.extend(std::iter::once(*x).filter(|_| true)); // Extend is a loop of add()
+            } else {
+                heap.add(*x);
+            }
             shadow.add(x);
             *truth.entry(*x).or_insert(0) += 1;
             let cnt = idx + 1;
